@@ -40,6 +40,11 @@ func init() {
 		x := x
 		add(ql[x], fmt.Sprintf("Long(%d)", x), func() *variants.Variant { return variants.VariantFromLong(x) })
 	}
+	// integers next to float32 / float64 rounding midpoints (double rounding shows only here)
+	for i, x := range []int64{1<<25 + 2 + 1, 1<<25 + 2 - 1, 1<<31 + 1<<7 + 1, 1<<40 + 1<<16 - 1, 1<<54 + 2 + 1, 1<<60 + 1<<36 + 1, 1<<60 + 1<<36 - 1, -(1<<60 + 1<<36 + 1), 1<<62 + 1<<38 + 1, 1<<60 + 1<<7 + 1} {
+		x := x
+		add(i == 5 || i == 0, fmt.Sprintf("Long(%d)", x), func() *variants.Variant { return variants.VariantFromLong(x) })
+	}
 	negZero32 := float32(math.Copysign(0, -1))
 	for i, x := range []float32{0, negZero32, 1, -1.5, 2.5, 7, 1 << 24, math.MaxFloat32, float32(math.NaN()), float32(math.Inf(1)), float32(math.Inf(-1))} {
 		x := x
